@@ -300,6 +300,23 @@ def _parse_chain(body, it):
     m = re.match(r"\s*\.(cloned|copied)\(\)", body[k:])
     if m:
         k += m.end()
+    skip_e = take_e = None
+    while True:
+        m = re.match(r"\s*\.(skip|take)\(", body[k:])
+        if not m:
+            break
+        o = k + m.end() - 1
+        c = _match_paren(body, o)
+        if c < 0:
+            return None
+        if m.group(1) == "skip" and skip_e is None and take_e is None:
+            skip_e = body[o + 1:c]
+        elif m.group(1) == "take" and take_e is None:
+            take_e = body[o + 1:c]
+        else:
+            return None
+        k = c + 1
+    _parse_chain.last_range = (skip_e, take_e)
     zip_recv = None
     m = re.match(r"\s*\.zip\(\s*([\w.\s]+?)\s*\.iter\(\)\s*\)", body[k:])
     if m:
@@ -380,10 +397,19 @@ def r_hoist_chains(sig, body, arg):
             prev_val = e0
             rest = closures[1:]
             bound = "vx_min(%s.len(), %s.len())" % (recv, zip_recv)
+            _parse_chain.last_range = (None, None) if getattr(_parse_chain, "last_range", (None, None)) == (None, None) else _parse_chain.last_range
         else:
             prev_val = "%s[vx_i]" % recv
             rest = closures
             bound = "%s.len()" % recv
+        skip_e, take_e = getattr(_parse_chain, "last_range", (None, None))
+        lo = "0"
+        if skip_e is not None:
+            lo = "vx_min(%s, %s)" % (skip_e, bound)
+        if take_e is not None:
+            bound = "vx_min(%s + (%s), %s)" % (lo, take_e, bound) if skip_e is not None else "vx_min(%s, %s)" % (take_e, bound)
+        bound = lo + ".." + bound if False else bound
+        range_lo = lo
         for idx, (pat, expr) in enumerate(rest):
             p = pat.strip()
             if p.startswith("&"):
@@ -396,12 +422,12 @@ def r_hoist_chains(sig, body, arg):
             prev_val = e2
         if kind == "sum":
             acc = "vx_sum%d" % n
-            pre = "let mut %s: %s = 0;\n    for vx_i in 0..%s {\n%s\n        %s += %s;\n    }\n    " % (
-                acc, targ, bound, "\n".join(lines), acc, prev_val)
+            pre = "let mut %s: %s = 0;\n    for vx_i in %s..%s {\n%s\n        %s += %s;\n    }\n    " % (
+                acc, targ, range_lo, bound, "\n".join(lines), acc, prev_val)
         else:
             acc = "vx_vec%d" % n
-            pre = "let mut %s = Vec::new();\n    for vx_i in 0..%s {\n%s\n        %s.push(%s);\n    }\n    " % (
-                acc, bound, "\n".join(lines), acc, prev_val)
+            pre = "let mut %s = Vec::new();\n    for vx_i in %s..%s {\n%s\n        %s.push(%s);\n    }\n    " % (
+                acc, range_lo, bound, "\n".join(lines), acc, prev_val)
         st = _stmt_start(body, r0)
         body = body[:st] + pre + body[st:r0] + acc + body[end:]
         pos = st + len(pre)
